@@ -179,7 +179,13 @@ class Gen:
                 # the datatype a language tag implies, given explicitly and without a tag
                 return {"k": "lit", "v": self.rand_str(), "dt": {"form": "prov", "local": "InternationalizedString"}}
             if self.p["custom_datatypes"] and r.random() < 0.35:
-                return {"k": "lit", "v": self.rand_str(), "dt": self.rand_name(scope, forms=("qn",), locals_=["dt", "T1"])}
+                seen = self.__dict__.setdefault("custom_lits", [])
+                if seen and r.random() < 0.45:
+                    import copy
+                    return copy.deepcopy(r.choice(seen))     # the same constant used again (possibly in another container)
+                lit = {"k": "lit", "v": self.rand_str(), "dt": self.rand_name(scope, forms=("qn",), locals_=["dt", "T1"])}
+                seen.append(lit)
+                return lit
             t = r.choice(sorted(lex))
             return {"k": "lit", "v": lex[t], "dt": {"form": "xsd", "local": t}}
         if k == "litnative":
@@ -311,6 +317,9 @@ class Gen:
                     val = {"k": "uri", "v": "http://www.w3.org/ns/prov#" + local}
             elif self.p["label_plain"] and an.get("s") == "prov:label":
                 val = self.rand_value(t, kinds=("str", "lang"))
+            elif r.random() < 0.03 and an.get("s") != "prov:label" and [l for (l, k2, tt) in self.rec_labels if tt == t and k2 in ELEMENTS]:
+                # a record object given as the value of an ordinary attribute: it stands for its identifier
+                val = {"k": "recval", "label": r.choice([l for (l, k2, tt) in self.rec_labels if tt == t and k2 in ELEMENTS])}
             else:
                 val = self.rand_value(t)
             extras.append([an, val])
